@@ -6,6 +6,7 @@ the line protocol is stateless.
 import GT.Base.JsonQ
 import GT.Model.Rep
 import GT.Lemmas.Rep
+import GT.Model.QI
 open Lean GT.J GT GT.RepW
 namespace GT.Driver.C05
 
@@ -20,6 +21,24 @@ structure RingIO (K : Type) [CommRing K] [Inhabited K] where
 
 def qIO : RingIO ℚ := ⟨J.toQ, ofQ, fun A => Rep.invertG A, some (1 / 2), id⟩
 def zIO : RingIO ℤ := ⟨int, fun z => .str (toString z), fun A => Rep.invertZG A, none, Int.cast⟩
+
+/-- a Gaussian rational travels as the string `"re|im"` (or as a plain rational) -/
+def parseQI (j : Json) : J.R QI :=
+  match j with
+  | .str s =>
+    match s.splitOn "|" with
+    | [re, im] => do pure ⟨← parseQStr re, ← parseQStr im⟩
+    | _ => do pure ⟨← parseQStr s, 0⟩
+  | _ => do pure ⟨← J.toQ j, 0⟩
+
+def outQI (z : QI) : Json :=
+  match ofQ z.re, ofQ z.im with
+  | .str a, .str b => .str (a ++ "|" ++ b)
+  | a, _ => a
+
+/-- ℚ(i): the exact execution domain for complex generator matrices -/
+def cIO : RingIO QI :=
+  ⟨parseQI, outQI, fun A => Rep.invertG A, some ⟨1 / 2, 0⟩, QI.re⟩
 
 section
 variable {K : Type} [CommRing K] [Inhabited K] (io : RingIO K)
@@ -53,7 +72,7 @@ def build (n : ℕ) (j : Json) : J.R (Rep n K) := do
   let simple := (optBool j "simple").getD true
   let rels ← (← arr (fieldD j "relations" (.arr #[]))).mapM str
   let hist ← arr (← field j "hist")
-  let mut ρ : Rep n K := { parseSimple := simple, relations := rels.toList.map (parseWord true) }
+  let mut ρ : Rep n K := { parseSimple := simple, relations := rels.toList.map (parseWord simple) }
   for h in hist do
     let g ← strf h "g"
     let A ← dmat io n (← field h "m")
@@ -66,6 +85,7 @@ def evalWords {p : ℕ} (σ : Rep p K) (q : Json) : M? Json := do
   let simple := optBool q "evsimple"
   let vals ← ws.toList.mapM fun w => σ.wordValueS w simple
   pure (Json.mkObj [("gens", .arr (σ.gens.map (fun kv => Json.str kv.1)).toArray),
+                    ("rels", .arr (σ.relations.map fun r => Json.arr (r.map Json.str).toArray).toArray),
                     ("vals", .arr (vals.map (outMat io)).toArray)])
 
 def derived (n : ℕ) (ρ : Rep n K) (q : Json) : M? Json := do
@@ -110,10 +130,10 @@ def query (n : ℕ) (ρ : Rep n K) (q : Json) : M? Json := do
   | "asym" => pure (.arr (ρ.asymGens.map Json.str).toArray)
   | "derived" => derived io n ρ q
   | "diff" =>
-    let bl ← ρ.differential (parseWord true (← strf q "w"))
+    let bl ← ρ.differential (parseWord ρ.parseSimple (← strf q "w"))
     pure (.arr (bl.map (outMat io)).toArray)
   | "diffat" =>
-    pure (outMat io (← ρ.differentialAt (parseWord true (← strf q "w")) (← strf q "g")))
+    pure (outMat io (← ρ.differentialAt (parseWord ρ.parseSimple (← strf q "w")) (← strf q "g")))
   | "cocycle" =>
     let rows ← ρ.cocycleMatrix
     pure (.arr (rows.map fun bl => Json.arr (bl.map (outMat io)).toArray).toArray)
@@ -135,6 +155,7 @@ end
 def runOp (j : Json) : J.R Json := do
   match (fieldD j "ring" (.str "Q")) with
   | .str "Z" => run zIO j
+  | .str "C" => run cIO j
   | _ => run qIO j
 
 /-! ### `utils/words.py` -/
@@ -150,9 +171,13 @@ def parseOp (j : Json) : J.R Json := do
   return .arr ((parseWord (← boolf j "simple") (← strf j "w")).map Json.str).toArray
 def validOp (j : Json) : J.R Json := do return .bool (validName (← strf j "g"))
 def foxOp (j : Json) : J.R Json := do
-  match foxDeriv invertGen (← strf j "g") (parseWord true (← strf j "w")) with
+  -- "wl": a tuple of generator names (words of a parse_simple=False representation); "w": a string
+  let w ← match j.getObjVal? "wl" with
+    | .ok l => do pure ((← (← arr l).mapM str).toList)
+    | .error _ => do pure (parseWord true (← strf j "w"))
+  match foxDeriv invertGen (← strf j "g") w with
   | none => throw "IndexError"
-  | some d => return .arr (d.map fun kc => Json.arr #[outWord kc.1, .str (toString kc.2)]).toArray
+  | some d => return .arr (d.map fun kc => Json.arr #[.arr (kc.1.map Json.str).toArray, .str (toString kc.2)]).toArray
 def commOp (j : Json) : J.R Json := do
   return outWord (commutator invertGen (parseWord true (← strf j "u")) (parseWord true (← strf j "v")))
 
